@@ -162,12 +162,16 @@ rf_wavheader_format_t rf_wavheader_get_format(rf_wavheader_t *wh)
 void rf_wavheader_init(rf_wavheader_t *wh, int sfreq, int num_channels,
 		rf_wavheader_format_t format)
 {
+	// fields that are absent for this format must not keep stale values
+	memset(wh, 0, sizeof(*wh));
+
 	memcpy(wh->chunk_id, riff, 4);
-	wh->chunk_size = 12 + 18 + 12 + 8; // chunks: riff, fmt, fact, data
 	memcpy(wh->format, wave, 4);
 
 	memcpy(wh->fmt_chunk_id, fmt, 4);
 	wh->fmt_chunk_size = (format == RF_WAVHEADER_FLOAT ? 18 : 16);
+	// bytes following the chunk_size field: "WAVE", fmt chunk, data header
+	wh->chunk_size = 4 + (8 + wh->fmt_chunk_size) + 8;
 	wh->audio_format = (format == RF_WAVHEADER_FLOAT ? 3 : 1);
 	wh->num_channels = num_channels;
 	wh->sample_rate = sfreq;
@@ -182,6 +186,7 @@ void rf_wavheader_init(rf_wavheader_t *wh, int sfreq, int num_channels,
 	if (format == RF_WAVHEADER_FLOAT) {
 		memcpy(wh->fact_chunk_id, fact, 4);
 		wh->fact_chunk_size = 12;
+		wh->chunk_size += 12; // fact chunk
 		wh->sample_length = 0; // must be filled in after writing the samples
 	}
 
